@@ -101,6 +101,28 @@ func c02Cases(thorough bool) []c02Case {
 					}
 				}
 			}
+			// machine-word boundaries of the product elapsed*price: prices that put it just below and
+			// just at/above 2^31, 2^32, 2^53, 2^63 and 2^64 (any fixed-width or floating shortcut in
+			// the arithmetic shows there and nowhere else)
+			if e > 0 {
+				for _, k := range []uint{31, 32, 53, 63, 64} {
+					pw2 := new(big.Int).Lsh(big.NewInt(1), k)
+					q := new(big.Int).Div(pw2, big.NewInt(int64(e)))
+					for _, d := range []int64{0, 1, 2} {
+						pr := new(big.Int).Add(q, big.NewInt(d))
+						if pr.Sign() <= 0 {
+							continue
+						}
+						for _, ps := range []string{"h1", "h1,h2,s"} {
+							if !thorough && ps != "h1" {
+								continue
+							}
+							out = append(out, c02Case{e, pr.String(), I, ps, false, false})
+							out = append(out, c02Case{e, pr.String(), I, ps, false, true})
+						}
+					}
+				}
+			}
 		}
 	}
 	return out
